@@ -321,10 +321,19 @@ fn spin_delay(n: u32) {
 pub type CallFn = fn(u32, usize, usize);
 
 fn hook(s: u32, a: usize, b: usize) {
+    // instructions of the harness's own hook are not counted by the instruction stepper
+    crate::istep::IN_HOOK.with(|h| h.set(h.get() + 1));
+    hook_inner(s, a, b);
+    crate::istep::IN_HOOK.with(|h| h.set(h.get().saturating_sub(1)));
+}
+
+#[inline(never)]
+fn hook_inner(s: u32, a: usize, b: usize) {
     let si = s as usize;
     if si >= MAX_SITES {
         return;
     }
+    crate::istep::on_hook(s, a, b);
     // ---- bookkeeping
     if s == site::DISPATCH_ENTER {
         let d = DEPTH.with(|d| {
